@@ -620,6 +620,11 @@ ChargeOf(c, p) == IF "D2" \in Defects
                   THEN RawPriceOf(bind[BK(c.svc, p)].sp, now, Get0(vol, <<c.cons, c.svc, p>>))
                   ELSE PriceOf(bind[BK(c.svc, p)].sp, now, Get0(vol, <<c.cons, c.svc, p>>))
 
+\* A context that has had all its batches can only be due for another after a restart from a
+\* zero-height export (its last batch was aborted there, it was paused like every context, and was
+\* started again on the new chain).  As found (D12) it was issued one batch more than its total.
+Exhausted(c) == c.batch > 0 /\ Finished(c)
+
 \* one call of newRequestBatchHandler
 StartBatch(id) ==
     /\ phase = "start"
@@ -639,6 +644,11 @@ StartBatch(id) ==
        /\ IF c.state # "running"
           THEN /\ cb' = <<>>
                /\ UNCHANGED <<bal, ctx, expQ, expQH, req, actId, actBind>>
+          ELSE IF Exhausted(c) /\ "D12" \notin Defects
+          THEN \* every batch of the context has been issued: it is finished, not given one more
+               /\ ctx' = Drop(ctx, {id})
+               /\ cb' = <<>>
+               /\ UNCHANGED <<bal, expQ, expQH, req, actId, actBind>>
           ELSE
           /\ bal' = IF enough /\ ~c.super /\ ~broke THEN Move(bal, c.cons, REQ, total) ELSE bal
           /\ cb' = IF broke /\ c.module # "" THEN <<StateCb(id, "insufficient balances")>> ELSE <<>>
@@ -692,18 +702,38 @@ PrepRefunds(a) ==
                              THEN req[r].fee ELSE 0], actId)
     + Get0(earned, a)
 
-PrepZeroHeight ==
-    /\ phase = "deliver"
-    /\ bal' = [a \in DOMAIN bal |->
+PrepBal == [a \in DOMAIN bal |->
                 IF a = REQ
                 THEN bal[REQ] - SumOver([r \in actId |-> IF r \in DOMAIN req THEN req[r].fee ELSE 0], actId)
                               - SumOver(earned, DOMAIN earned)
                 ELSE IF a \in ModuleAccts THEN bal[a] ELSE bal[a] + PrepRefunds(a)]
-    /\ ctx' = [id \in DOMAIN ctx |->
+PrepCtx == [id \in DOMAIN ctx |->
                 [ctx[id] EXCEPT !.state = "paused", !.bstate = "completed", !.reqCount = 0, !.respCount = 0]]
+
+PrepZeroHeight ==
+    /\ phase = "deliver"
+    /\ bal' = PrepBal
+    /\ ctx' = PrepCtx
     /\ cb' = <<>>
     /\ UNCHANGED <<height, now, phase, params, supply, defs, bind, powner, oprov, obind, waddr, nctx,
                    newQ, newQH, expQ, expQH, req, actId, actBind, resp, vol, earned, oearned>>
+
+\* A new chain is started from the genesis exported after the preparation (height 1 again, the
+\* harness keeps the clock and carries the bank balances over).  What the genesis does not hold is
+\* gone: queues, request and response records, pending markers, volumes, earnings records.
+RestartFrom(t, b, cx) ==
+    /\ phase = "deliver"
+    /\ bal' = b /\ ctx' = cx
+    /\ height' = 1 /\ now' = t
+    /\ newQ' = {} /\ newQH' = <<>> /\ expQ' = {} /\ expQH' = <<>>
+    /\ req' = <<>> /\ actId' = {} /\ actBind' = {} /\ resp' = <<>>
+    /\ vol' = <<>> /\ earned' = <<>> /\ oearned' = <<>>
+    /\ cb' = <<>>
+    /\ UNCHANGED <<phase, params, supply, defs, bind, powner, oprov, obind, waddr, nctx>>
+
+Restart(t) == RestartFrom(t, bal, ctx)
+\* preparation, export and restart in one step (for model checking: no state in between)
+PrepRestart(t) == RestartFrom(t, PrepBal, PrepCtx)
 
 -----------------------------------------------------------------------------
 (* Module services: handler.go handleMsgCallService module branch +          *)
